@@ -19,7 +19,7 @@ DTS = ["bool", "int8", "int64", "uint8", "uint64", "float32", "float64"]
 
 def shards(tier):
     vs = dsl.lens_vectors(4, 3) if tier == "quick" else dsl.lens_vectors(5, 4)
-    return [{"lens": v} for v in vs if sum(v) > 0] + [{"big": 1}]
+    return [{"lens": v} for v in vs if sum(v) > 0] + [{"lens": [3, 0, 7, 1, 0, 0, 12, 2, 5, 0, 9, 4, 1, 33, 0, 2]}] + [{"big": 1}]
 
 
 BIG = {"int64": [(1 << 53) + 1, 2, 0, 0], "uint64": [(1 << 63) + 1, 3, 2, 5]}
